@@ -86,7 +86,7 @@ def value(vc, variant=0):
     if vc == "int":
         return [3, 0, -7, 10**20][variant % 4]
     if vc == "float-integral":
-        return [2.0, -0.0, 1e15][variant % 3]
+        return [2.0, -0.0, 1e15, 1e16, 2.0**63, -1e22][variant % 6]
     if vc == "float":
         return [0.5, -2.75, 1e-300][variant % 3]
     if vc == "float-nonfinite":
@@ -94,7 +94,7 @@ def value(vc, variant=0):
     if vc == "const-int":
         return Constant("ci", [2, 0][variant % 2])
     if vc == "const-float-integral":
-        return Constant("cfi", 4.0)
+        return Constant("cfi", [4.0, 1e16][variant % 2])
     if vc == "const-float":
         return Constant("cf", 0.25)
     if vc.startswith("param-"):
@@ -310,6 +310,13 @@ def stretch_case(case):
     names = case["names"]
     base = gates.make_gates(case["gate_seed"], idle=case["with_idle"], names=names)
     base = {k: v for k, v in base.items() if k not in ("prepare_all", "measure_all")}
+    order = case.get("order", "as-built")
+    if order == "active-then-idle":
+        base = {**{k: v for k, v in base.items() if not k.startswith("I_")}, **{k: v for k, v in base.items() if k.startswith("I_")}}
+    elif order == "idle-then-active":
+        base = {**{k: v for k, v in base.items() if k.startswith("I_")}, **{k: v for k, v in base.items() if not k.startswith("I_")}}
+    elif order == "reversed":
+        base = dict(reversed(list(base.items())))
     if not case["with_idle"] is False:
         pass
     suffix = case["suffix"]
@@ -353,8 +360,9 @@ def stretch_case(case):
             if par + suffix not in sg:
                 raise Violation("stretched-gate-missing", f"parent of idle gate {name}: {par}{suffix} not in {list(sg)}")
             idle_s = sg.get(name + suffix)
-            if idle_s is None or list(idle_s.used_qubits) != [] or len(list(idle_s.parameters)) != len(list(g.parameters)) + 1:
-                raise Violation("stretched-idle", f"{name}{suffix}: {idle_s}")
+            want_params = list(g.parameters)
+            if idle_s is None or list(idle_s.used_qubits) != [] or len(list(idle_s.parameters)) != len(want_params) + 1 or not all(a == b for a, b in zip(want_params, idle_s.parameters)):
+                raise Violation("stretched-idle", f"{name}{suffix}: {idle_s} (parent idle gate: {want_params}; gate order {list(base)})")
     nt = len(arities) >= 2 and len(base) >= 2
     return {"nontrivial": nt, "classes": ["gates:%d" % len(base), "with-idle:%s" % case["with_idle"]], "key": repr((names, suffix, case["with_idle"], case["gate_seed"] % 7)), "sample": {"gates": list(base), "suffix": suffix}}
 
@@ -366,6 +374,7 @@ def _stretch_gen(ch):
         "gate_seed": ch.int(0, 10**6),
         "with_idle": ch.bool(),
         "suffix": ch.pick(["_stretched", "_s", "X"]),
+        "order": ch.pick(["as-built", "active-then-idle", "idle-then-active", "reversed"]),
         "arg_seed": ch.int(0, 10**6),
     }
 
@@ -379,6 +388,6 @@ def parts():
     return [
         Part("calls-enumerated", None, call_case, quick=0, thorough=0, exhaustive=_enum_calls, shards=8),
         Part("calls-random", gen.cases(_random_call), call_case, quick=3000, thorough=60000),
-        Part("idle", gen.cases(_idle_gen), idle_case, quick=800, thorough=15000, min_nontrivial=0.3),
-        Part("stretched", gen.cases(_stretch_gen), stretch_case, quick=600, thorough=10000, min_nontrivial=0.3),
+        Part("idle", gen.cases(_idle_gen), idle_case, quick=800, thorough=15000, min_nontrivial=0.1),
+        Part("stretched", gen.cases(_stretch_gen), stretch_case, quick=600, thorough=10000, min_nontrivial=0.05),
     ]
